@@ -214,6 +214,15 @@ pub struct Case {
     pub window: WindowSel,
     pub from_sel: u16,
     pub steps: Vec<Step>,
+    /// sources start with ~4100 elements (beyond one 4096-element cursor chunk)
+    #[serde(default)]
+    pub big: bool,
+}
+
+impl Case {
+    pub fn initial_len(&self) -> usize {
+        if self.big { 4060 + self.initial as usize } else { self.initial as usize }
+    }
 }
 
 pub fn step_strategy() -> impl Strategy<Value = Step> {
@@ -534,6 +543,18 @@ macro_rules! compute_family {
                     })
                 }
 
+                pub fn grow_initial(&mut self, n: usize) -> Result<(), String> {
+                    let mut left = n;
+                    let mut first = true;
+                    while left > 0 || first {
+                        let k = left.min(200);
+                        self.change(Change::Grow { n: k as u8, skew: if first { [0, 1, 2] } else { [0, 0, 0] } })?;
+                        left -= k;
+                        first = false;
+                    }
+                    Ok(())
+                }
+
                 /// shortest same-index source
                 pub fn min_len(&self) -> usize {
                     [
@@ -694,7 +715,7 @@ macro_rules! compute_family {
                 let exit = Exit::new();
                 let name = format!("out{}", NAME_SEQ.fetch_add(1, std::sync::atomic::Ordering::Relaxed));
                 let mut out: EagerVec<E> = EagerVec::forced_import(&w.db, &name, Version::ONE).map_err(|e| format!("import result: {e}"))?;
-                w.change(Change::Grow { n: case.initial, skew: [0, 1, 2] })?;
+                w.grow_initial(case.initial_len())?;
                 let mut first = true;
                 let mut resumed = false;
                 let mut crossed_batch = false;
@@ -829,7 +850,7 @@ macro_rules! compute_family {
 
             /// window / `from` parameters are fixed for the whole history (resolved against the initial fill)
             fn window(case: &Case, _w: &World) -> usize {
-                let l = case.initial as usize;
+                let l = case.initial_len();
                 match case.window {
                     WindowSel::W0 => 0,
                     WindowSel::W1 => 1,
@@ -894,7 +915,7 @@ macro_rules! compute_family {
                         e.compute_rolling_count(mf, &w.a.v, win(w), |v: &u32| v % 2 == 0, x)
                     }),
                     Method::CumulativeCountFrom => drive::<BytesVec<usize, usize>>(case, &mut w, obs, false, &|w| w.a.len(), &|_w, c| c, None, &|e, w, mf, x| {
-                        e.compute_cumulative_count_from(mf, &w.a.v, frac(fs, case.initial as usize + 2), |v: &u32| v % 3 != 0, x)
+                        e.compute_cumulative_count_from(mf, &w.a.v, frac(fs, case.initial_len() + 2), |v: &u32| v % 3 != 0, x)
                     }),
                     Method::PreviousValue => drive::<SV<f32>>(case, &mut w, obs, false, &|w| w.f.len(), &|_w, c| c, None, &|e, w, mf, x| e.compute_previous_value(mf, &w.f.v, win(w), x)),
                     Method::Change => drive::<SV<i64>>(case, &mut w, obs, false, &|w| w.a.len(), &|_w, c| c, Some(&|w: &World| { let k = win(w); (0..w.a.m.len()).map(|i| if i < k { 0i64 } else { w.a.m[i] as i64 - w.a.m[i - k] as i64 }).collect::<Vec<i64>>() }), &|e, w, mf, x| e.compute_change(mf, &w.a.v, win(w), x)),
@@ -936,10 +957,10 @@ macro_rules! compute_family {
                         drive::<SV<u64>>(case, &mut w, obs, false, &|w| w.a.len(), &|_w, c| c, None, &|e, w, mf, x| e.compute_all_time_low_(mf, &w.a.v, x, true))
                     }
                     Method::AllTimeHighFrom => drive::<SV<u64>>(case, &mut w, obs, false, &|w| w.a.len(), &|_w, c| c, None, &|e, w, mf, x| {
-                        e.compute_all_time_high_from(mf, &w.a.v, frac(fs, case.initial as usize + 2), x)
+                        e.compute_all_time_high_from(mf, &w.a.v, frac(fs, case.initial_len() + 2), x)
                     }),
                     Method::AllTimeLowFrom => drive::<SV<u64>>(case, &mut w, obs, false, &|w| w.a.len(), &|_w, c| c, None, &|e, w, mf, x| {
-                        e.compute_all_time_low_from(mf, &w.a.v, frac(fs, case.initial as usize + 2), x)
+                        e.compute_all_time_low_from(mf, &w.a.v, frac(fs, case.initial_len() + 2), x)
                     }),
                     Method::Zscore => drive::<SV<f32>>(case, &mut w, obs, false, &|w| w.f.len().min(w.g.len()).min(w.h.len()), &|_w, c| c, None, &|e, w, mf, x| {
                         e.compute_zscore(mf, &w.f.v, &w.g.v, &w.h.v, x)
@@ -979,6 +1000,9 @@ macro_rules! compute_family {
                     }
                 };
                 rawdb::verif::set_max_cache_size(None);
+                if case.big {
+                    obs.label("sources-longer-than-one-cursor-chunk");
+                }
                 obs.label(case.method.name());
                 r
             }
@@ -989,7 +1013,7 @@ macro_rules! compute_family {
                 let exit = Exit::new();
                 let name = format!("out{}", NAME_SEQ.fetch_add(1, std::sync::atomic::Ordering::Relaxed));
                 let mut out: EagerVec<BytesVec<usize, usize>> = EagerVec::forced_import(&w.db, &name, Version::ONE).map_err(|e| format!("import: {e}"))?;
-                w.change(Change::Grow { n: case.initial, skew: [0, 1, 2] })?;
+                w.grow_initial(case.initial_len())?;
                 let mut first = true;
                 for (si, step) in case.steps.iter().enumerate() {
                     let fine_before = w.f2c.m.len();
